@@ -415,6 +415,20 @@ def onRepr {ρ α} (other : Handle) (m : M ρ α) : M ρ α := fun s =>
   | .pcb s' => .pcb { s' with self := s.self }
   | .ub u => .ub u
 
+/-- Rust's unwinding for an owned local: when the rest of the function panics (`assert!`, `unwrap_with_msg`, user
+code), the local's destructor `d` runs before the panic propagates -/
+def dropOnUnwind {ρ α} (d : M Unit Unit) (m : M ρ α) : M ρ α := fun s =>
+  let after (s' : St) (k : St → Step ρ α) : Step ρ α :=
+    match d s' with
+    | .next _ s'' | .done _ s'' => k s''
+    | .pidx s'' => .pidx s'' | .palloc s'' => .palloc s'' | .pcb s'' => .pcb s''
+    | .ub u => .ub u
+  match m s with
+  | .pidx s' => after s' .pidx
+  | .palloc s' => after s' .palloc
+  | .pcb s' => after s' .pcb
+  | other => other
+
 /-! ## Iterators handed in by the caller: user code as data
 
 An `IntoIterator<Item = char>` / `<Item = &str>` (or `String`, `Box<str>`, `Cow<str>`: all read as `&str`) is its
